@@ -15,6 +15,7 @@ import (
 	"time"
 
 	"github.com/anishathalye/porcupine"
+	martian "github.com/google/martian/v3"
 	"github.com/google/martian/v3/har"
 	mlog "github.com/google/martian/v3/log"
 
@@ -120,6 +121,16 @@ type seqRunner struct {
 	m       model
 	mark    int
 	viaHTTP bool
+	// modifier mode: the log is driven through Logger.ModifyRequest/ModifyResponse
+	// with martian contexts (ids come from the contexts), as the proxy does
+	viaMod  bool
+	mod     map[string]*modState // logical id -> current request/context
+	actual  map[string]string    // context id -> logical id
+	removes []func()
+	// failing-writer mode: every 3rd export-and-reset through the HTTP handler
+	// writes to a ResponseWriter whose Write fails
+	failWriter bool
+	nEAR       int
 	// conservation
 	exported map[string]bool // id#reqMark returned by ExportAndReset
 	// results handed out earlier must not change afterwards (a caller may keep them)
@@ -144,6 +155,60 @@ func newRes(req *http.Request, mark int) *http.Response {
 	}
 }
 
+type modState struct {
+	req   *http.Request
+	ctxID string
+}
+
+// newModReq makes a request with its own martian context.
+func (s *seqRunner) newModReq(id string, mark int) *modState {
+	req := newReq(id, mark)
+	ctx, remove, err := martian.TestContext(req, nil, nil)
+	if err != nil || ctx == nil {
+		panic("martian.TestContext failed")
+	}
+	s.removes = append(s.removes, remove)
+	st := &modState{req: req, ctxID: ctx.ID()}
+	s.actual[ctx.ID()] = id
+	return st
+}
+
+func (s *seqRunner) translate(obs []obsEntry) []obsEntry {
+	if !s.viaMod {
+		return obs
+	}
+	for i := range obs {
+		if l, ok := s.actual[obs[i].ID]; ok {
+			obs[i].ID = l
+		}
+	}
+	return obs
+}
+
+// failingRW is an http.ResponseWriter whose Write fails after a few bytes
+// (the client of the export-and-reset handler went away).
+type failingRW struct {
+	h    http.Header
+	left int
+}
+
+func (f *failingRW) Header() http.Header { return f.h }
+func (f *failingRW) WriteHeader(int)     {}
+func (f *failingRW) Write(p []byte) (int, error) {
+	if f.left <= 0 {
+		return 0, fmt.Errorf("verif: client went away")
+	}
+	n := len(p)
+	if n > f.left {
+		n = f.left
+	}
+	f.left -= n
+	if n < len(p) {
+		return n, fmt.Errorf("verif: client went away")
+	}
+	return n, nil
+}
+
 type retainedHAR struct {
 	h    *har.HAR
 	was  string
@@ -165,7 +230,7 @@ func (s *seqRunner) recheckRetained() string {
 		if err != nil {
 			return rt.what + " result became unreadable: " + err.Error()
 		}
-		if now := obsString(obs); now != rt.was {
+		if now := obsString(s.translate(obs)); now != rt.was {
 			return fmt.Sprintf("the result an earlier %s returned changed afterwards: was [%s], now [%s]", rt.what, rt.was, now)
 		}
 	}
@@ -321,7 +386,15 @@ func (s *seqRunner) apply(o op) (clause, what string) {
 	switch o.K {
 	case opReq:
 		s.mark++
-		err := s.l.RecordRequest(id, newReq(id, s.mark))
+		var err error
+		if s.viaMod {
+			if s.m.find(id) == nil || s.mod[id] == nil {
+				s.mod[id] = s.newModReq(id, s.mark)
+			}
+			err = s.l.ModifyRequest(s.mod[id].req) // a duplicate = the same request (same context) seen again
+		} else {
+			err = s.l.RecordRequest(id, newReq(id, s.mark))
+		}
 		if s.m.find(id) != nil {
 			if err == nil {
 				return "duplicate-id", "RecordRequest with a duplicate id returned no error"
@@ -341,7 +414,16 @@ func (s *seqRunner) apply(o op) (clause, what string) {
 		} else {
 			req = newReq(id, 0)
 		}
-		if err := s.l.RecordResponse(id, newRes(req, s.mark)); err != nil {
+		if s.viaMod {
+			st := s.mod[id]
+			if st == nil {
+				st = s.newModReq(id, 0) // response for an exchange the log never saw
+			}
+			res := newRes(st.req, s.mark)
+			if err := s.l.ModifyResponse(res); err != nil {
+				return "record-response", "ModifyResponse returned an error: " + err.Error()
+			}
+		} else if err := s.l.RecordResponse(id, newRes(req, s.mark)); err != nil {
 			return "record-response", "RecordResponse returned an error: " + err.Error()
 		}
 		if e != nil {
@@ -349,6 +431,22 @@ func (s *seqRunner) apply(o op) (clause, what string) {
 			e.resMarks[s.mark] = true
 		}
 	case opEAR:
+		s.nEAR++
+		if s.failWriter && s.nEAR%3 == 0 {
+			// the handler's client went away mid-answer: the entries were handed out
+			// by that call all the same (they must not come back, nor be handed out again)
+			rw := &failingRW{h: http.Header{}, left: 7 * (s.nEAR % 5)}
+			hreq, _ := http.NewRequest("POST", "http://martian.proxy/logs/reset?return=true", nil)
+			har.NewResetHandler(s.l).ServeHTTP(rw, hreq)
+			var keep []*mEntry
+			for _, e := range s.m.list {
+				if !e.completed {
+					keep = append(keep, e)
+				}
+			}
+			s.m.list = keep
+			break
+		}
 		h, err := earVia(s.l, s.viaHTTP)
 		if err != nil {
 			return "export-and-reset", err.Error()
@@ -357,6 +455,7 @@ func (s *seqRunner) apply(o op) (clause, what string) {
 		if err != nil {
 			return "export-and-reset", err.Error()
 		}
+		obs = s.translate(obs)
 		s.retain(h, obs, "ExportAndReset")
 		s.r.Class("shape:" + shape(s.m.list))
 		var done, keep []*mEntry
@@ -398,6 +497,7 @@ func (s *seqRunner) apply(o op) (clause, what string) {
 	if err != nil {
 		return "export", err.Error()
 	}
+	obs = s.translate(obs)
 	if w := compare(obs, s.m.list, false); w != "" {
 		return "export", "Export after " + o.String() + ": " + w
 	}
@@ -415,11 +515,30 @@ func runSeq(r *vh.Run, ops []op, viaHTTP, body bool) (string, string, int) {
 }
 
 func runSeqEvery(r *vh.Run, ops []op, viaHTTP, body bool, every int) (string, string, int) {
+	return runSeqMode(r, ops, viaHTTP, body, every, "")
+}
+
+// runSeqMode: mode "" (direct API / handlers), "modifier" (through
+// Logger.ModifyRequest/ModifyResponse with martian contexts), "failing-writer"
+// (handlers, every 3rd export-and-reset answered to a client that went away).
+func runSeqMode(r *vh.Run, ops []op, viaHTTP, body bool, every int, mode string) (string, string, int) {
 	l := har.NewLogger()
 	if !body {
 		l.SetOption(har.BodyLogging(false), har.PostDataLogging(false))
 	}
 	s := &seqRunner{r: r, l: l, viaHTTP: viaHTTP, exported: map[string]bool{}, every: every}
+	switch mode {
+	case "modifier":
+		s.viaMod, s.viaHTTP = true, false
+		s.mod, s.actual = map[string]*modState{}, map[string]string{}
+		defer func() {
+			for _, rm := range s.removes {
+				rm()
+			}
+		}()
+	case "failing-writer":
+		s.viaHTTP, s.failWriter = true, true
+	}
 	for i, o := range ops {
 		if c, w := s.apply(o); c != "" {
 			return c, w, i
@@ -463,13 +582,22 @@ type caseSeq struct {
 	Ops  []op   `json:"ops"`
 	HTTP bool   `json:"http"`
 	Body bool   `json:"body"`
+	Mode string `json:"mode,omitempty"`
 }
 
 func checkSeq(r *vh.Run, c caseSeq) {
-	clause, what, at := runSeq(r, c.Ops, c.HTTP, c.Body)
+	clause, what, at := runSeqMode(r, c.Ops, c.HTTP, c.Body, 1, c.Mode)
 	r.Eval(1)
 	if clause != "" {
-		r.ViolationCase(c, "C17:"+clause+":sequential", what+fmt.Sprintf(" [op %d of %s]", at, seqString(c.Ops)), nil)
+		cls := "sequential"
+		if c.Mode != "" {
+			cls = c.Mode
+		}
+		r.ViolationCase(c, "C17:"+clause+":"+cls, what+fmt.Sprintf(" [op %d of %s]", at, seqString(c.Ops)), nil)
+		return
+	}
+	if c.Mode != "" {
+		r.Class("mode:" + c.Mode)
 	}
 }
 
@@ -534,6 +662,12 @@ func runRandom(r *vh.Run) {
 			}
 		}
 		c := caseSeq{Kind: "seq", Ops: ops, HTTP: rng.Intn(4) == 0, Body: rng.Intn(2) == 0}
+		switch i % 5 {
+		case 1:
+			c.Mode, c.HTTP = "modifier", false
+		case 3:
+			c.Mode, c.HTTP = "failing-writer", true
+		}
 		if i%200 == 0 {
 			r.Case(map[string]interface{}{"kind": "rand-block", "from": i})
 		}
